@@ -56,7 +56,8 @@ class Harness:
         self.funs = {}
         self.claims = []
         self.log = []
-        self.stub_gaps = []      # backend API the code under test asked a contract stub for and the stub does not model
+        del symx.STUB_GAPS[:]
+        self.stub_gaps = symx.STUB_GAPS      # API the code under test asked a contract stub for and the stub does not model
         self.missing = []
         self.preferred = []     # soft constraints used only to pick readable validation models
 
